@@ -15,7 +15,7 @@ PROPERTY = "C02"
 LEVEL = "exploration"
 SHARDS = {"quick": 4, "thorough": 16}
 REQUIRED = ["response-model", "content-length-vs-counted", "head-equals-get", "byteranges-parts", "if-range-decision",
-            "zerocopy-window", "reused-response-object"]
+            "zerocopy-window", "reused-response-object", "concurrent-requests-one-object"]
 RULE = ("Files of position-coded bytes (all >= 0x80) with sizes {0,1,c-1,c,c+1,2c,3c+1, 9..11, 99..101, 999..1001, 9999..10001} for "
         "chunk sizes c in {1,2,3,4,7,8,64,262144}; Range headers = all 1-spec and sampled 2-spec sets over {0,1,c-1,c,c+1,size-1,size,size+1} "
         "in the three spec forms + random 3-6-spec sets + malformed/other-unit/empty headers; If-Range in {absent,current ETag,stale ETag,"
@@ -58,17 +58,21 @@ class Env:
         return self.files[key]
 
 
+CTYPES = {".bin": None, ".txt": None, ".ct1": "text/plain; note=caf\xe9", ".ct2": "application/x-\xfc; v=1"}
+
+
 def call(iface, path, chunk, method, headers, resp=None):
     from baize import asgi, wsgi
+    ctype_arg = CTYPES.get(os.path.splitext(path)[1])
     req = drivers.Req(method=method, path=b"/f", headers=headers,
                       extensions={"http.response.zerocopysend": {}} if iface == "asgi-zc" else None)
     random.seed(20240229)  # same multipart boundary for GET and HEAD / both interfaces
     if iface == "wsgi":
-        resp = resp or wsgi.FileResponse(path, chunk_size=chunk)
+        resp = resp or wsgi.FileResponse(path, chunk_size=chunk, content_type=ctype_arg)
         r = drivers.run_wsgi(resp, drivers.to_environ(req))
         hdrs = drivers.norm_headers_wsgi(r.headers)
         return r, r.code, hdrs, r.body
-    resp = resp or asgi.FileResponse(path, chunk_size=chunk)
+    resp = resp or asgi.FileResponse(path, chunk_size=chunk, content_type=ctype_arg)
     r = drivers.run_asgi(resp, drivers.to_scope(req))
     return r, r.status, drivers.norm_headers_asgi(r.headers), r.body
 
@@ -82,7 +86,8 @@ def execute(ctx, env, case, resp=None):
     """case: iface, size, ext, chunk, range (str|None), if_range (kind), method; resp = an already used response object (reuse)"""
     iface, size, chunk, method = case["iface"], case["size"], case["chunk"], case["method"]
     path, data = env.file(size, case.get("ext", ".bin"))
-    ctype = "application/octet-stream" if case.get("ext", ".bin") == ".bin" else "text/plain"
+    ext = case.get("ext", ".bin")
+    ctype = CTYPES.get(ext) or ("application/octet-stream" if ext == ".bin" else "text/plain")
     vkey = (iface, size, case.get("ext", ".bin"))
     if vkey not in env.validators:
         r0, st0, h0, b0 = call(iface, path, chunk, "GET", [])
@@ -264,7 +269,7 @@ def gen_cases(ctx, rng):
                     for kind in ifr_kinds:
                         for method in (("GET", "HEAD") if rng.random() < 0.3 else ("GET",)):
                             yield {"iface": iface, "size": size, "chunk": chunk, "range": rh, "if_range": kind,
-                                   "method": method, "ext": ".bin" if rng.random() < 0.8 else ".txt"}
+                                   "method": method, "ext": rng.choice([".bin"] * 7 + [".txt", ".ct1", ".ct2"])}
 
 
 REGRESSION = [
@@ -311,6 +316,53 @@ def run(ctx):
             ctx.mon("reused-response-object")
             ctx.case(("reuse", iface, size, chunk, tuple(seq[:j + 1]), case["method"]))
     ctx.sample("reused-object", {"iface": "asgi", "size": 10, "chunk": 3, "sequence": ["bytes=1-3", None]})
+    # ---- one long-lived ASGI response object answering two overlapping requests (asyncio.gather)
+    import asyncio
+    for i in range(ctx.scale(300, 8000)):
+        size, chunk = rng.choice([(10, 3), (100, 7), (1000, 64)])
+        path, data = env.file(size, ".bin")
+        obj = asgi.FileResponse(path, chunk_size=chunk)
+        r1, r2 = rng.sample([None, "bytes=0-1", "bytes=1-3", "bytes=2-", "bytes=-2", "bytes=0-0,2-2"], 2)
+        outs = {}
+
+        async def one(tag, rh):
+            sent = []
+
+            async def send(m):
+                sent.append(m)
+                await asyncio.sleep(0)
+
+            async def receive():
+                await asyncio.Event().wait()
+            req = drivers.Req(headers=[("Range", rh)] if rh is not None else [])
+            await obj(drivers.to_scope(req), receive, send)
+            outs[tag] = sent
+
+        async def both():
+            await asyncio.gather(one("a", r1), one("b", r2))
+        random.seed(20240229)
+        drivers.loop().run_until_complete(both())
+        ctx.mon("concurrent-requests-one-object")
+        for tag, rh in (("a", r1), ("b", r2)):
+            sent = outs[tag]
+            hdrs = drivers.norm_headers_asgi(sent[0].get("headers"))
+            body = b"".join(m.get("body", b"") for m in sent[1:])
+            case = {"iface": "asgi", "size": size, "chunk": chunk, "range": rh, "concurrent_with": r2 if tag == "a" else r1}
+            cl, cr = hget(hdrs, "content-length"), hget(hdrs, "content-range")
+            status = sent[0]["status"]
+            if cl is not None and int(cl) != len(body):
+                ctx.violation("concurrent|content-length-differs-from-bytes-sent", case, f"declared {cl}, sent {len(body)}")
+            specs = tokenize(rh) if rh is not None else None
+            if specs is None:
+                if status != 200 or body != data or cr is not None:
+                    ctx.violation("concurrent|full-response-wrong", case, f"{status} cr={cr!r} {len(body)} B")
+            else:
+                o, spans = resolve(specs, size)
+                if o == "ok" and len(spans) == 1:
+                    s_, e_ = spans[0]
+                    if status != 206 or body != data[s_:e_] or cr != f"bytes {s_}-{e_ - 1}/{size}":
+                        ctx.violation("concurrent|single-range-response-wrong", case, f"{status} cr={cr!r} body {len(body)} B, expected [{s_},{e_})")
+        ctx.case(("concurrent", size, chunk, r1, r2))
     ctx.monitors["parse_range-contract(icontract)"] = contracts.COUNTS["parse_range.post"]
 
 
